@@ -252,8 +252,14 @@ def close_vec(a, b, rtol=1e-9, atol=0.0):
     return False, "max |diff| %.3e at %d (%.12g vs %.12g), scale %.3e" % (err, k, a[k], b[k], scale)
 
 
-def close_jac(Ja, Jb, rtol=1e-7, atol=0.0):
-    """column-scale-relative comparison of two dense Jacobians"""
+def close_jac(Ja, Jb, rtol=1e-7, atol=0.0, fvals=None, xvals=None, noise=1e-12):
+    """column-scale-relative comparison of two dense Jacobians.
+
+    tol_ij = rtol * (largest entry of column j in either matrix) + noise * |f_i| / |x_j| + atol.
+    The second term is the round-off floor of a derivative obtained by perturbing x_j
+    (complex step / finite difference / cancellation in the analytic formula); it is far below
+    any genuine derivative of f_i w.r.t. x_j unless that derivative is itself negligible.
+    """
     Ja = np.asarray(Ja, dtype=float); Jb = np.asarray(Jb, dtype=float)
     if Ja.shape != Jb.shape:
         return False, "shape %s vs %s" % (Ja.shape, Jb.shape)
@@ -263,18 +269,21 @@ def close_jac(Ja, Jb, rtol=1e-7, atol=0.0):
         return False, "non-finite entries"
     colscale = np.maximum(np.max(np.abs(Ja), axis=0), np.max(np.abs(Jb), axis=0))
     rowscale = np.maximum(np.max(np.abs(Ja), axis=1), np.max(np.abs(Jb), axis=1))
-    # an entry is compared relative to the larger entry of its column *and* of its row:
-    # tol_ij = rtol * min(colscale_j, rowscale_i) would be too strict for cancellation,
-    # so use the column scale, but fall back to the row scale for columns that are all zero.
-    tol = rtol * np.maximum(colscale[None, :], 1e-300) + atol
+    tol = rtol * colscale[None, :] + atol
+    if fvals is not None and xvals is not None:
+        f = np.abs(np.asarray(fvals, dtype=float).ravel())
+        x = np.abs(np.asarray(xvals, dtype=float).ravel())
+        fs = np.maximum(f, 1e-3 * (f.max() if f.size else 0.0))
+        xs = np.maximum(x, max(1e-3 * (x.max() if x.size else 0.0), 1e-12))
+        tol = tol + noise * fs[:, None] / xs[None, :]
+    tol = np.maximum(tol, 1e-300)
     D = np.abs(Ja - Jb)
     bad = D > tol
-    # columns whose scale is zero in both: fine
     if not bad.any():
         return True, ""
     i, j = np.unravel_index(int(np.argmax(D / tol)), D.shape)
-    return False, "entry (%d,%d): %.12g vs %.12g (column scale %.3e, row scale %.3e)" % (
-        i, j, Ja[i, j], Jb[i, j], colscale[j], rowscale[i])
+    return False, "entry (%d,%d): %.12g vs %.12g (column scale %.3e, row scale %.3e, tol %.3e)" % (
+        i, j, Ja[i, j], Jb[i, j], colscale[j], rowscale[i], tol[i, j])
 
 
 def case_hash(*parts):
